@@ -85,6 +85,12 @@ theorem init_order_invariant (es es' : List Event)
   intro t
   rw [init_event_at, init_event_at, h t]
 
+example : initializeTimeline [ev 5 ["p", "a"] 1, ev 2 ["p", "b"] 7, ev 5 ["p", "a"] 3] =
+    initializeTimeline [ev 2 ["p", "b"] 7, ev 5 ["p", "a"] 1, ev 5 ["p", "a"] 3] :=
+  init_order_invariant _ _ (fun t => by
+    by_cases h2 : t = 2 <;> by_cases h5 : t = 5 <;>
+      simp [ev, List.filter_cons, h2, h5, eq_comm] <;> omega)
+
 /-- … in particular every permutation of a listing with pairwise distinct times. -/
 theorem init_perm_distinct (es es' : List Event) (hp : es.Perm es')
     (hn : (es.map (·.time)).Nodup) : initializeTimeline es = initializeTimeline es' := by
@@ -217,6 +223,13 @@ theorem run_eq_spec (V : List Path) (hV : WFVars V) (dts : List Int) (s : Sim)
     runTicks dts s = .ok (specTicks dts s) :=
   runTicks_eq_spec V hV dts s hT hvars
 
+example : runTicks [2, 2, 2, 1] sim2 = .ok (specTicks [2, 2, 2, 1] sim2) :=
+  run_eq_spec [["p", "a"]]
+    ⟨by simp, by simp, by simp⟩ _ sim2
+    ⟨by simp [sim2, ev, initializeTimeline, insertEvent], by
+      simp [sim2, ev, initializeTimeline, insertEvent, Scalar, Val.isDict, Val.isList]⟩
+    (by simp [sim2])
+
 /-- **Fire-once in an engine run.** After the ticks `pre` the store clock is the initial clock
 plus the elapsed time, and the next tick pops exactly the events of the (sorted) timeline whose
 time is `≤` that clock and was `>` the clock at the start of every earlier tick. -/
@@ -232,6 +245,9 @@ theorem engine_fire_once (s : Sim) (hs : Sorted s.timeline) (pre : List Int) :
   congr 1
   funext e
   simp [due, Bool.and_comm]
+
+example : (finalState [2, 2, 2] sim2).clock = sim2.clock + [2, 2, 2].sum :=
+  (engine_fire_once sim2 (init_sorted _) [2, 2, 2]).1
 
 example : (specTicks [2, 2, 2, 1] sim2).map
         (fun s => (s.gtime, s.vars.map (fun pv => intOf pv.2))) =
